@@ -178,6 +178,10 @@ def transcript_text(scn_obj):
             for key in ("basins", "outlets", "pits"):
                 if key in c.O:
                     lines.append("I impl_%s %s" % (key, " ".join(c.O[key])))
+        if c.toks and c.toks[0] == "mstraw":
+            for key in ("raw_k", "raw_b"):
+                if key in c.O:
+                    lines.append("I impl_%s %s" % (key, " ".join(c.O[key])))
         if c.toks and c.toks[0] == "bgraph" and "bg_edges" in c.O and "bg_tree" in c.O:
             lines.append("I impl_bg_edges " + " ".join(c.O["bg_edges"]))
             lines.append("I impl_bg_tree " + " ".join(c.O["bg_tree"]))
